@@ -204,6 +204,77 @@ impl StaticOrDynamic {
     //@| loopend 0: proof { assert(variables@.take(variables@.len() as int) =~= variables@); }
 }
 
+// ================================================================ MarkerString::new: marker patterns are substituted longest NAME first (C10)
+use std::cmp::Ordering;
+use std::sync::Arc;
+// SHIMS (opaque): the lazily compiled capture regex behind Arc<RwLock<_>>
+#[verifier::external_body] pub struct LazyRegex { x: u8 }
+#[verifier::external_body] #[verifier::accept_recursive_types(V)] pub struct RwLock<V> { h: std::marker::PhantomData<V> }
+impl LazyRegex { #[verifier::external_body] pub fn new_leaf(regex: &str, ignore_case: bool) -> LazyRegex { unimplemented!() } }
+impl<V> RwLock<V> { #[verifier::external_body] pub fn new(v: V) -> RwLock<V> { unimplemented!() } }
+//@@ rename Marker RouteMarker
+//@@ item src/marker/mod.rs :: struct Marker
+//@@ item src/marker/mod.rs :: struct MarkerString
+pub open spec fn blen(s: Seq<char>) -> nat { vstd::utf8::encode_utf8(s).len() }
+pub open spec fn at_name(m: RouteMarker) -> Seq<char> { seq!['@'] + m.name@ }
+// foreign string functions (regex::escape, str::contains, str::replace, format!): uninterpreted / outlined with assumed contracts
+pub uninterp spec fn escaped(s: Seq<char>) -> Seq<char>;
+pub uninterp spec fn scontains(s: Seq<char>, pat: Seq<char>) -> bool;
+pub uninterp spec fn sreplace(s: Seq<char>, pat: Seq<char>, with: Seq<char>) -> Seq<char>;
+pub open spec fn grp_plain(m: RouteMarker) -> Seq<char> { "(?:"@ + m.regex@ + ")"@ }
+pub open spec fn grp_named(m: RouteMarker) -> Seq<char> { "(?P<"@ + m.name@ + ">"@ + m.regex@ + ")"@ }
+#[verifier::external_body] pub fn outl_regex_escape(s: &str) -> (r: String) ensures r@ == escaped(s@) { /* verbatim: regex::escape(str) */ unimplemented!() }
+#[verifier::external_body] pub fn outl_fmt_plain(m: &RouteMarker) -> (r: String) ensures r@ == grp_plain(*m) { /* verbatim: format!("(?:{})", marker.regex) */ unimplemented!() }
+#[verifier::external_body] pub fn outl_fmt_named(m: &RouteMarker) -> (r: String) ensures r@ == grp_named(*m) { /* verbatim: format!("(?P<{}>{})", marker.name, marker.regex) */ unimplemented!() }
+#[verifier::external_body] pub fn outl_contains(s: &String, pat: &str) -> (r: bool) ensures r == scontains(s@, pat@) { /* verbatim: regex.contains(marker.format().as_str()) */ unimplemented!() }
+#[verifier::external_body] pub fn outl_sreplace(s: &String, pat: &str, with: &str) -> (r: String) ensures r@ == sreplace(s@, pat@, with@) { /* verbatim: regex.replace(marker.format().as_str(), marker_regex.as_str()) | capture.replace(marker.format().as_str(), marker_capture.as_str()) */ unimplemented!() }
+impl RouteMarker {
+    #[verifier::external_body] pub fn format(&self) -> (r: String) ensures r@ == at_name(*self) { unimplemented!() }
+}
+// ASSUMED specification of slice::sort_by (vstd has none): the result is a permutation in which no element is Greater than a later one
+// according to the comparator — the comparator itself is the REAL closure, verified in place against its annotated contract
+pub assume_specification<T, F: FnMut(&T, &T) -> Ordering> [<[T]>::sort_by] (v: &mut [T], f: F)
+    requires forall|a: &T, b: &T| #[trigger] f.requires((a, b)),
+    ensures final(v)@.to_multiset() == old(v)@.to_multiset(), final(v)@.len() == old(v)@.len(),
+        forall|i: int, j: int| #![trigger final(v)@[i], final(v)@[j]] 0 <= i < j < final(v)@.len() ==> exists|o: Ordering| #[trigger] f.ensures((&final(v)@[i], &final(v)@[j]), o) && !(o is Greater);
+pub open spec fn len_order(a: RouteMarker, b: RouteMarker) -> Ordering {
+    // "longer names first": a goes before b when its name is longer
+    if blen(b.name@) < blen(a.name@) { Ordering::Less } else if blen(b.name@) == blen(a.name@) { Ordering::Equal } else { Ordering::Greater }
+}
+pub open spec fn longest_name_first(ms: Seq<RouteMarker>) -> bool { forall|i: int, j: int| 0 <= i < j < ms.len() ==> blen(#[trigger] ms[i].name@) >= blen(#[trigger] ms[j].name@) }
+// reference: substitute the markers in list order, each only if its reference still occurs
+pub open spec fn fold_plain(s: Seq<char>, ms: Seq<RouteMarker>) -> Seq<char>
+    decreases ms.len()
+{ if ms.len() == 0 { s } else { let p = fold_plain(s, ms.drop_last()); let m = ms.last(); if scontains(p, at_name(m)) { sreplace(p, at_name(m), grp_plain(m)) } else { p } } }
+pub open spec fn fold_named(s: Seq<char>, c: Seq<char>, ms: Seq<RouteMarker>) -> Seq<char>
+    decreases ms.len()
+{ if ms.len() == 0 { c } else { let m = ms.last(); if scontains(fold_plain(s, ms.drop_last()), at_name(m)) { sreplace(fold_named(s, c, ms.drop_last()), at_name(m), grp_named(m)) } else { fold_named(s, c, ms.drop_last()) } } }
+impl MarkerString {
+    //@@ fn src/marker/mod.rs :: impl MarkerString / fn new -> r
+    //@| ensures exists|sorted: Seq<RouteMarker>| #[trigger] longest_name_first(sorted) && sorted.to_multiset() == markers@.to_multiset()
+    //@|     && (r matches Some(ms) ==> ms.regex@ == fold_plain(escaped(str@), sorted) && ms.capture@ == fold_named(escaped(str@), escaped(str@), sorted) && ms.ignore_case == ignore_case),
+    //@| outline `regex::escape(str)` => `outl_regex_escape(str)`
+    //@| outline `format!("(?:{})", marker.regex)` => `outl_fmt_plain(marker)`
+    //@| outline `format!("(?P<{}>{})", marker.name, marker.regex)` => `outl_fmt_named(marker)`
+    //@| outline `regex.contains(marker.format().as_str())` => `outl_contains(&regex, marker.format().as_str())`
+    //@| outline `regex.replace(marker.format().as_str(), marker_regex.as_str())` => `outl_sreplace(&regex, marker.format().as_str(), marker_regex.as_str())`
+    //@| outline `capture.replace(marker.format().as_str(), marker_capture.as_str())` => `outl_sreplace(&capture, marker.format().as_str(), marker_capture.as_str())`
+    //@| closure `|a, b|` => `|a: &RouteMarker, b: &RouteMarker| -> (o: Ordering) ensures o == len_order(*a, *b)`
+    //@| opt r6:0
+    //@| attr #[verifier::loop_isolation(false)]
+    //@| entry broadcast use vstd::std_specs::hash::group_hash_axioms; broadcast use axiom_string_key_model; broadcast use vstd::laws_cmp::group_laws_cmp;
+    //@|     let ghost e0 = escaped(str@);
+    //@| forlabel 0: it
+    //@| loopbefore 0: let ghost sorted = markers@; proof { assert(longest_name_first(sorted)) by {
+    //@|     assert forall|i: int, j: int| 0 <= i < j < sorted.len() implies blen(#[trigger] sorted[i].name@) >= blen(#[trigger] sorted[j].name@) by {
+    //@|         assert(!(len_order(sorted[i], sorted[j]) is Greater)); } } }
+    //@| loop 0: invariant iter_ref_ok(it.history@, it.index@, it.snapshot@.remaining(), sorted), markers@ == sorted,
+    //@|     regex@ == fold_plain(e0, sorted.take(it.index@)), capture@ == fold_named(e0, e0, sorted.take(it.index@)),
+    //@| loophead 0: let ghost k = it.index@ as int; proof { assert(*marker == sorted[k]); assert(sorted.take(k + 1).drop_last() =~= sorted.take(k)); assert(sorted.take(k + 1).last() == sorted[k]); }
+    //@| loopend 0: proof { assert(sorted.take(sorted.len() as int) =~= sorted); }
+}
+//@@ unrename Marker
+
 //@@ strlits
 } // verus!
 fn main() {}
